@@ -10,10 +10,10 @@ package main
 
 import (
 	"fmt"
-	"os"
 	"go/ast"
 	"go/constant"
 	"go/types"
+	"os"
 	"reflect"
 	"regexp"
 	"sort"
@@ -108,8 +108,10 @@ type cliCmd struct {
 	skip     bool
 	posArgs  []cliArg
 	flagKeys []string
-	nonConst []string
-	cond     bool // appended conditionally (not in the unconditional literal)
+	// flags given a default value: [field, default]
+	flagDefaults [][2]string
+	nonConst     []string
+	cond         bool // appended conditionally (not in the unconditional literal)
 }
 
 type cliArg struct {
@@ -128,6 +130,7 @@ func checkC20(w *World, r *Report) {
 	r.Rule("CLI-COVER", "every Msg/Query method has a command (not skipped unless authority gated)", 15)
 	r.Rule("CLI-UNIQUE", "command names and aliases of one service are pairwise distinct", 2)
 	r.Rule("APP-ORDER", "module wired into app_config begin/end/genesis order and linked", 5)
+	checkModuleIface(w, r, "MOD-IFACE")
 	r.Rule("CFG-START", "the default node configuration passes the server's start-up validation", 2)
 	r.Rule("PROTO-AMINO", "amino JSON encoding options fit the field they annotate (responses can be rendered)", 12)
 
@@ -152,6 +155,7 @@ func checkC20(w *World, r *Report) {
 	}
 	declWhere := w.pos(optsFn.Pos())
 	cmds := cliCommands(w, tm, optsFn)
+	checkCliDec(w, r, tm, cmds)
 
 	svcIface := map[string]*types.Named{"Query": w.QueryServer, "Tx": w.MsgServer}
 	listed := map[string]map[string]*cliCmd{"Query": {}, "Tx": {}}
@@ -208,6 +212,13 @@ func checkC20(w *World, r *Report) {
 			key := fmt.Sprintf("cmd:%s:flag:%s", name, fk)
 			r.Check(has[fk], "CLI-BIND", key, where, fmt.Sprintf("flag option key %q is a proto field of %s", fk, reqN.Obj().Name()),
 				fmt.Sprintf("can't find field %s on %s specified as a flag", fk, reqN.Obj().Name()))
+		}
+		// a flag the user did not type sends nothing: a default silently becomes part of the request (a filter the user
+		// never asked for, an amount never typed)
+		for _, fd := range c.flagDefaults {
+			r.Fail("CLI-USE", fmt.Sprintf("cmd:%s:flag-default:%s", name, fd[0]), where,
+				fmt.Sprintf("flag %q of %s has no default value", fd[0], name),
+				fmt.Sprintf("flag %q is given the default %q: a command line that does not mention it sends %s = %q — for a list query the answer silently leaves out every record that does not match", fd[0], fd[1], fd[0], fd[1]))
 		}
 		// CLI-USE
 		if c.use != "" && !c.skip {
